@@ -12,3 +12,5 @@ open Martian.Props.C04
 #print axioms both_released_iff_both_finished
 #print axioms legacy_buffered_pump_retains
 #print axioms legacy_buffered_pump_counterexample
+#print axioms facts_tunnel_pumps
+#print axioms facts_downstream_read_ahead_handed_over
